@@ -644,12 +644,12 @@ C19One(Ctx &c, const char *cls, Rng &r)
   }
   // a copy must not depend on its source any more: the source is assigned a table of the same size / destroyed
   {
-    D<I> src{a};
+    D<I> src{mn, mx, alpha};  // (constructed from the parameters: a copy of a copy would still lead back to `a`)
     D<I> cp{src};
     const D<I> same_size = other(n, alpha + 0.37);
     src = same_size;  // copy assignment of a table of the same size: overwritten in place
     same(cp, "copy-constructed-then-source-reassigned");
-    auto *heap_src = new D<I>{a};
+    auto *heap_src = new D<I>{mn, mx, alpha};
     D<I> cp2{*heap_src};
     D<I> cp3;
     cp3 = *heap_src;
